@@ -53,10 +53,34 @@ def md_funcs():
 
 
 def local_defs(func: ast.AST) -> Dict[str, List[ast.AST]]:
+    """All definitions of each local name.  Augmented assignments (`x *= e`) and in-place tensor methods
+    (`x.mul_(e)`, `x[...] = e`) count as further definitions `x <op> e`, so that a name modified in place is never
+    mistaken for its first assignment."""
     out: Dict[str, List[ast.AST]] = {}
     for n in ast.walk(func):
         if isinstance(n, ast.Assign) and len(n.targets) == 1 and isinstance(n.targets[0], ast.Name):
             out.setdefault(n.targets[0].id, []).append(n.value)
+        elif isinstance(n, ast.Assign):
+            for t in n.targets:
+                if isinstance(t, ast.Subscript) and isinstance(t.value, ast.Name):
+                    out.setdefault(t.value.id, []).append(n.value)
+                elif isinstance(t, (ast.Tuple, ast.List)):
+                    for e in t.elts:
+                        if isinstance(e, ast.Name):
+                            out.setdefault(e.id, []).append(ast.Call(func=ast.Name(id="__unpack__", ctx=ast.Load()), args=[n.value], keywords=[]))
+        elif isinstance(n, ast.AugAssign) and isinstance(n.target, ast.Name):
+            out.setdefault(n.target.id, []).append(ast.BinOp(left=ast.Name(id=n.target.id, ctx=ast.Load()), op=n.op, right=n.value))
+        elif isinstance(n, ast.AugAssign) and isinstance(n.target, ast.Subscript) and isinstance(n.target.value, ast.Name):
+            nm = n.target.value.id
+            out.setdefault(nm, []).append(ast.BinOp(left=ast.Name(id=nm, ctx=ast.Load()), op=n.op, right=n.value))
+        elif isinstance(n, ast.Call) and isinstance(n.func, ast.Attribute) and isinstance(n.func.value, ast.Name) \
+                and n.func.attr in INPLACE and n.args:
+            nm = n.func.value.id
+            op = {"add_": ast.Add(), "sub_": ast.Sub(), "mul_": ast.Mult(), "div_": ast.Div()}.get(n.func.attr)
+            if op is not None:
+                out.setdefault(nm, []).append(ast.BinOp(left=ast.Name(id=nm, ctx=ast.Load()), op=op, right=n.args[0]))
+            else:
+                out.setdefault(nm, []).append(n)
     return out
 
 
@@ -166,7 +190,9 @@ class ZeroOnPad:
         if isinstance(e, ast.Name):
             if e.id in self.extra_z:
                 return True
-            if e.id in self._stack or e.id not in self.defs:
+            if e.id in self._stack:
+                return True  # greatest fixpoint: the invariant is assumed for the name inside its own (in-place) updates
+            if e.id not in self.defs:
                 return False
             self._stack.add(e.id)
             try:
